@@ -115,8 +115,12 @@ def judge_taus(version, frac, logE, beta, u):
     from nuspacesim.config import NssConfig, Simulation
     from nuspacesim.simulation.taus.taus import Taus
 
-    cfg = NssConfig(simulation=Simulation(tau_shower=Simulation.NuPyPropShower(etau_frac=frac, table_version=str(version))))
-    t = _taus(version, frac)
+    try:
+        cfg = NssConfig(simulation=Simulation(tau_shower=Simulation.NuPyPropShower(etau_frac=frac, table_version=str(version))))
+        t = _taus(version, frac)
+    except Exception as ex:
+        # every etau_frac in (0, 1] and every shipped table version is a valid configuration
+        return [("valid_configuration_accepted", 0, f"etau_frac={frac}, table_version={version} accepted", f"{type(ex).__name__}: {str(ex)[:100]}")], np.zeros(len(beta))
     stub = RngStub(fn=lambda idx, n: np.full(n, u))
     with stub.installed():
         tauBeta, tauLorentz, tauEnergy, showerEnergy, pexit = t(np.array(beta), np.array(logE))
@@ -294,12 +298,15 @@ def judge_frac_history(seq):
     for step in range(len(seq) + 1):
         if step:
             how, frac = seq[step - 1]
-            if how == "set":
-                cfgm.simulation.tau_shower.etau_frac = frac
-            elif how == "section":
-                cfgm.simulation.tau_shower = Simulation.NuPyPropShower(etau_frac=frac, table_version="3")
-            else:
-                cfgm.simulation = cfgm.simulation.model_copy(update={"tau_shower": Simulation.NuPyPropShower(etau_frac=frac, table_version="3")})
+            try:
+                if how == "set":
+                    cfgm.simulation.tau_shower.etau_frac = frac
+                elif how == "section":
+                    cfgm.simulation.tau_shower = Simulation.NuPyPropShower(etau_frac=frac, table_version="3")
+                else:
+                    cfgm.simulation = cfgm.simulation.model_copy(update={"tau_shower": Simulation.NuPyPropShower(etau_frac=frac, table_version="3")})
+            except Exception as ex:
+                return [("valid_configuration_accepted", f"etau_frac={frac} ({how}) accepted", f"{type(ex).__name__}: {str(ex)[:100]}")]
         with RngStub(fn=lambda idx, n: np.full(n, 0.37)).installed():
             tb, tl, te, se, pe = tm(np.array([0.1, 0.3]), np.array([8.0, 10.0]))
         exp = frac * te / 1e8
